@@ -1241,10 +1241,25 @@ def allclose(a, b, **kw):
 
 
 def isclose(a, b, rtol=1e-05, atol=1e-08, equal_nan=False):
-    """over the reals: closeness is equality (the tolerance only absorbs float rounding)"""
+    """numpy's definition, over the reals: |a - b| <= atol + rtol * |b| (tolerances as exact decimals)"""
+    from fractions import Fraction as _F
+
+    rt, at = _F(str(rtol)), _F(str(atol))
+
+    def one(u, v):
+        if _isnanv(u) or _isnanv(v):
+            return _b.bool(equal_nan and _isnanv(u) and _isnanv(v))
+        d = u - v
+        return (abs(d) if not is_sym(d) else _abs1(d)) <= at + rt * (abs(v) if not is_sym(v) else _abs1(v))
+
     if _is_arraylike(a) or _is_arraylike(b):
-        return _emap2(lambda u, v: u == v, a, b) if "_emap2" in globals() else NDArr(_obj([x == y for x, y in zip(list(_obj(a).flat), list(_obj(b).flat))]))
-    return a == b
+        A, B = _obj(a), _obj(b)
+        if A.shape == () or B.shape == ():
+            if A.shape == ():
+                return _emap(lambda v: one(a if not isinstance(a, NDArr) else A.item(), v), b)
+            return _emap(lambda u: one(u, b if not isinstance(b, NDArr) else B.item()), a)
+        return NDArr(_obj([one(x, y) for x, y in zip(list(A.flat), list(B.flat))]).reshape(A.shape))
+    return one(a, b)
 
 
 def unique(x):
